@@ -10,7 +10,7 @@ META = {
     "level": "fault_enumeration",
     "rule": ("histories over {setForwardData, deleteForwardingRule, setDataSink, setDataSource, getData, sendData, spin(k), "
              "openCom/closeCom, message arrival, receive fault}: every sequence up to depth 5 (thorough) / 3 (quick, plus a "
-             "sample of depth 4-5) over a 22-operation alphabet on a hub with endpoints A, B (and the unknown name Z); "
+             "sample of depth 4-5) over a 23-operation alphabet on a hub with endpoints A, B (and the unknown name Z); "
              "random histories of depth <= 60 on hubs of 1..4 endpoints with 0..3 sinks and sources, each re-run with a "
              "receive fault (no data) injected at every receive position in turn; a short run over real UDP loopback sockets.  "
              "Endpoints are in-memory doubles of CommsObject installed in Comms.endpoints that log every sendData/getData; "
@@ -155,6 +155,11 @@ def step(w, op, ctx, hist, step_no):
             log.msg_counter += 1
             w.doubles[op[1]].queue.append("m%d@%s" % (log.msg_counter, op[1]))
             return True
+        elif kind == "inject_falsy":
+            # a received message whose payload happens to be falsy is still a message ('' is what an empty datagram decodes to)
+            log.msg_counter += 1
+            w.doubles[op[1]].queue.append(FALSY[log.msg_counter % len(FALSY)])
+            return True
         elif kind == "fault":
             w.doubles[op[1]].arm_fault = True
             return True
@@ -276,7 +281,9 @@ def step(w, op, ctx, hist, step_no):
     return True
 
 
-ALPHABET = [("fwd", "A", "B"), ("fwd", "B", "A"), ("fwd", "A", "A"), ("fwd", "A", "Z"), ("del", "A", "B"), ("del", "B", "A"), ("del", "A", "Z"),
+FALSY = ["", 0, b"", 0.0]
+
+ALPHABET = [("inject_falsy", "A"), ("fwd", "A", "B"), ("fwd", "B", "A"), ("fwd", "A", "A"), ("fwd", "A", "Z"), ("del", "A", "B"), ("del", "B", "A"), ("del", "A", "Z"),
             ("sink", "A", "s1"), ("sink", "A", "s2"), ("sink", "B", "s1"), ("src", "B", "q1"), ("src", "A", "q1"),
             ("inject", "A"), ("inject", "B"), ("get", "A"), ("get", "B"), ("get", "Z"), ("send", "B"), ("spin", 1),
             ("close", "A"), ("open", "A"), ("fault", "A")]
@@ -311,14 +318,14 @@ def random_history(rng, names):
     ops = []
     allnames = list(names) + ["Z"]
     for _ in range(L):
-        k = gen.pick(rng, ["fwd", "fwd", "del", "sink", "src", "inject", "inject", "inject", "get", "get", "send", "spin", "spin", "close", "open", "fault"])
+        k = gen.pick(rng, ["fwd", "fwd", "del", "sink", "src", "inject", "inject", "inject", "inject_falsy", "get", "get", "send", "spin", "spin", "close", "open", "fault"])
         if k in ("fwd", "del"):
             ops.append((k, gen.pick(rng, allnames), gen.pick(rng, allnames)))
         elif k == "sink":
             ops.append((k, gen.pick(rng, allnames), gen.pick(rng, sinks + [None]) if sinks else None))
         elif k == "src":
             ops.append((k, gen.pick(rng, allnames), gen.pick(rng, srcs + [None]) if srcs else None))
-        elif k in ("inject", "close", "open", "fault"):
+        elif k in ("inject", "inject_falsy", "close", "open", "fault"):
             ops.append((k, gen.pick(rng, list(names))))
         elif k in ("get", "send"):
             ops.append((k, gen.pick(rng, allnames)))
